@@ -325,11 +325,9 @@ theorem relay_fwd_step (L : A.Laws) (nd : Node A) (cid cid' nxt early n : Nat) (
     (hl : List.lookup cid nd.relays = some ⟨cid', k, .fwd, false, nxt, early⟩)
     (hre : re = true → early < nd.maxEarly) :
     (processCell nd ⟨cid, false, re, A.enc k .fwd n inner⟩).2 = .forward nxt ⟨cid', false, re, inner⟩ := by
-  have h1 : (re && decide (nd.maxEarly ≤ early)) = false := by
-    cases re with
-    | false => rfl
-    | true => have := hre rfl; simp; omega
-  simp [processCell, relayCell, hl, h1, relayCrypto, decryptCell, decLayers_single_enc L]
+  have h1a : ¬ (nd.maxEarly ≤ early ∧ re = true) := fun h => by have := hre h.2; omega
+  have h1b : ¬ (re = true ∧ nd.maxEarly ≤ early) := fun h => by have := hre h.1; omega
+  simp [processCell, relayCell, hl, h1a, h1b, relayCrypto, decryptCell, decLayers_single_enc L]
 
 /-- a backward relay adds exactly its own layer -/
 theorem relay_bwd_step (nd : Node A) (cid cid' nxt early : Nat) (k : A.Key) (body : Bytes)
@@ -337,17 +335,27 @@ theorem relay_bwd_step (nd : Node A) (cid cid' nxt early : Nat) (k : A.Key) (bod
     (processCell nd ⟨cid, false, false, body⟩).2 = .forward nxt ⟨cid', false, false, A.enc k .bwd nd.ctr body⟩ := by
   simp [processCell, relayCell, hl, relayCrypto, encryptCell]
 
+theorem toNat_ne_of_ne {b c : UInt8} (h : b ≠ c) : b.toNat ≠ c.toNat := fun e => h (UInt8.toNat_inj.mp e)
+
 /-- the exit removes the last layer and hands the message to the tunnel community -/
 theorem exit_step (L : A.Laws) (nd : Node A) (cid prev n : Nat) (k : A.Key) (re : Bool) (m : Bytes) (b : UInt8)
     (hr : List.lookup cid nd.relays = none) (hx : List.lookup cid nd.exits = some ⟨k, prev⟩)
     (hmax : 0 < nd.maxEarly) (hm : m.head? = some b) (hb : re = true ∨ b ≠ 4) :
     (processCell nd ⟨cid, false, re, A.enc k .fwd n m⟩).2 = .deliver ⟨cid, false, re, m⟩ := by
-  have h0 : (nd.maxEarly == 0) = false := by simp; omega
-  have h1 : ((!re && b == 4) || nd.maxEarly == 0) = false := by
-    rw [h0]; cases hb with
-    | inl h => simp [h]
-    | inr h => simp [h]
-  simp [processCell, hr, incomingCrypto, exitIncoming, hx, decryptCell, decLayers_single_enc L, endpointAccepts, hm, h1]
+  have h0 : nd.maxEarly ≠ 0 := by omega
+  have h1 : genEndpointEarlyDrop re b.toNat nd.maxEarly = false := by
+    cases hb with
+    | inl h => simp [h, h0]
+    | inr h =>
+      have := toNat_ne_of_ne h
+      simp at this
+      simp [this, h0]
+  have h2 : ¬ (re = false ∧ b.toNat = 4 ∨ nd.maxEarly = 0) := by
+    simp at h1
+    rintro (⟨ha, hb4⟩ | hz)
+    · exact absurd (h1.1 ha) (by simp [hb4])
+    · exact h0 hz
+  simp [processCell, hr, incomingCrypto, exitIncoming, hx, decryptCell, decLayers_single_enc L, endpointAccepts, hm, h2]
 
 /-- the originator removes all layers in hop order -/
 theorem orig_step (L : A.Laws) (nd : Node A) (cid : Nat) (ce : CircuitE A) (kn : List (A.Key × Nat)) (m : Bytes) (b : UInt8)
@@ -356,11 +364,12 @@ theorem orig_step (L : A.Laws) (nd : Node A) (cid : Nat) (ce : CircuitE A) (kn :
     (hne : ce.hops ≠ [])
     (hmax : 0 < nd.maxEarly) (hm : m.head? = some b) (hb : b ≠ 4) :
     (processCell nd ⟨cid, false, false, encLayers A .bwd kn m⟩).2 = .deliver ⟨cid, false, false, m⟩ := by
-  have h0 : (nd.maxEarly == 0) = false := by simp; omega
+  have h0 : nd.maxEarly ≠ 0 := by omega
+  have hb' : b.toNat ≠ 4 := by have := toNat_ne_of_ne hb; simpa using this
   have he : ce.hops.isEmpty = false := by cases hh : ce.hops <;> simp_all
   have hd : decLayers A .bwd ce.hops (encLayers A .bwd kn m) = some m := by
     rw [← hk]; exact decLayers_encLayers L .bwd kn m
-  simp [processCell, hr, incomingCrypto, ownIncoming, hx, hc, decryptCell, hd, hs, endpointAccepts, hm, h0, hb, he]
+  simp [processCell, hr, incomingCrypto, ownIncoming, hx, hc, decryptCell, hd, hs, endpointAccepts, hm, h0, hb', he]
 
 end Ipv8.C04
 
@@ -652,9 +661,11 @@ theorem endpointAccepts_plain_err (mx : Nat) (c : Cell) (hp : c.plaintext = true
   · exact ⟨_, rfl⟩
   · rename_i b hb
     obtain ⟨h2, h3⟩ := hm b hb
+    have h2' : b.toNat ≠ 2 := by have := toNat_ne_of_ne h2; simpa using this
+    have h3' : b.toNat ≠ 3 := by have := toNat_ne_of_ne h3; simpa using this
     split
     · exact ⟨_, rfl⟩
-    · simp [hp, h2, h3]
+    · simp [hp, h2', h3', genNoCryptoIds]
 
 /-- a plaintext-flagged cell is dropped by every node unless it is a create (2) or created (3) -/
 theorem plaintext_rule (nd : Node A) (c : Cell) (hp : c.plaintext = true)
@@ -669,8 +680,9 @@ theorem plaintext_rule (nd : Node A) (c : Cell) (hp : c.plaintext = true)
       simp only [ownIncoming, decryptCell, hp, if_true]
       split <;> rfl
     have hi : incomingCrypto nd c = .ok c := by
-      simp only [incomingCrypto, hp, hx, ho]
-      simp only [Bool.not_true, Bool.and_false, Bool.false_eq_true, if_false]
+      simp only [incomingCrypto, hx, ho]
+      simp only [genUnknownCircuit, genNoKeysYet, hp, Bool.not_true, Bool.and_false, Bool.false_and, Bool.and_self,
+        Bool.false_eq_true, if_false]
       split
       · rfl
       · split <;> rfl
@@ -709,19 +721,19 @@ theorem outgoing_own (nd : Node A) (c : Cell) (ce : CircuitE A) (hp : c.plaintex
 theorem orig_send (nd : Node A) (target cid : Nat) (re0 : Bool) (m : Bytes) (ce : CircuitE A)
     (hc : List.lookup cid nd.circuits = some ce) (hs : ce.hs = none) (hne : ce.hops ≠ []) :
     (sendCell nd target ⟨cid, false, re0, m⟩).2 =
-      some (target, ⟨cid, false, (m.head? == some 4) || decide (ce.early < nd.maxEarly),
+      some (target, ⟨cid, false, sendEarly m ce.early nd.maxEarly,
                      encLayers A .fwd (withNonces A nd.ctr ce.hops) m⟩) := by
-  generalize hce' : (if ((m.head? == some 4) || decide (ce.early < nd.maxEarly)) = true
+  generalize hce' : (if (sendEarly m ce.early nd.maxEarly) = true
       then ({ ce with early := ce.early + 1 } : CircuitE A) else ce) = ce'
   have hes : earlyStep nd ⟨cid, false, re0, m⟩ =
       ({ nd with circuits := setEntry cid ce' nd.circuits },
-       ⟨cid, false, (m.head? == some 4) || decide (ce.early < nd.maxEarly), m⟩) := by
+       ⟨cid, false, sendEarly m ce.early nd.maxEarly, m⟩) := by
     simp only [earlyStep, hc, ← hce']
   have h1 : ce'.hops = ce.hops := by rw [← hce']; split <;> rfl
   have h2 : ce'.hs = none := by rw [← hce']; split <;> simp [hs]
   have hl := lookup_setEntry_self cid ce' ce nd.circuits hc
   have ho := outgoing_own { nd with circuits := setEntry cid ce' nd.circuits }
-    ⟨cid, false, (m.head? == some 4) || decide (ce.early < nd.maxEarly), m⟩ ce' rfl hl h2 (by rw [h1]; exact hne)
+    ⟨cid, false, sendEarly m ce.early nd.maxEarly, m⟩ ce' rfl hl h2 (by rw [h1]; exact hne)
   simp only [sendCell, hes, ho, h1]
 
 theorem exit_send (nd : Node A) (target cid prev : Nat) (re0 : Bool) (m : Bytes) (k : A.Key)
@@ -967,11 +979,9 @@ theorem rendezvous_step (L : A.Laws) (nd : Node A) (cid cid' nxt nxt' e e' n : N
     (hre : re = true → e < nd.maxEarly) :
     (processCell nd ⟨cid, false, re, A.enc kD .fwd n inner⟩).2 =
       .forward nxt ⟨cid', false, false, A.enc kS .bwd nd.ctr inner⟩ := by
-  have hb : (re && decide (nd.maxEarly ≤ e)) = false := by
-    cases re with
-    | false => rfl
-    | true => have := hre rfl; simp; omega
-  simp [processCell, relayCell, h1, hb, relayCrypto, decryptCell, decLayers_single_enc L, h2, encryptCell]
+  have hba : ¬ (nd.maxEarly ≤ e ∧ re = true) := fun h => by have := hre h.2; omega
+  have hbb : ¬ (re = true ∧ nd.maxEarly ≤ e) := fun h => by have := hre h.1; omega
+  simp [processCell, relayCell, h1, hba, hbb, relayCrypto, decryptCell, decLayers_single_enc L, h2, encryptCell]
 
 /-- an e2e circuit's owner wraps the message in the end-to-end layer first and then in all hop layers -/
 theorem e2e_outgoing (nd : Node A) (c : Cell) (ce : CircuitE A) (hk : A.Key) (hp : c.plaintext = false)
@@ -1016,7 +1026,7 @@ theorem e2e_deliver_inv (L : A.Laws) (nd : Node A) (c c' : Cell) (ce : CircuitE 
 
 theorem hsDir_match : hsDirOut .rpDownloader = hsDirIn .rpSeeder ∧ hsDirOut .rpSeeder = hsDirIn .rpDownloader ∧
     hsDirOut .rpDownloader ≠ hsDirIn .rpDownloader ∧ hsDirOut .rpSeeder ≠ hsDirIn .rpSeeder := by
-  simp [hsDirOut, hsDirIn]
+  decide
 
 end Ipv8.C04
 
